@@ -263,11 +263,14 @@ func (c *Client) Wait() error {
 // Close closes the connection with the MQTT-SN gateway. The client sends
 // a DISCONNECT packet before closing the connection.
 func (c *Client) Close() error {
-	if err := c.Disconnect(); err != nil {
-		return err
-	}
+	// The client's goroutines must be stopped and the connection closed even
+	// if the DISCONNECT cannot be delivered.
+	err := c.Disconnect()
 	c.cancel()
-	return c.conn.Close()
+	if closeErr := c.conn.Close(); err == nil {
+		err = closeErr
+	}
+	return err
 }
 
 func (c *Client) setState(new util.ClientState) {
